@@ -44,6 +44,7 @@ type node struct {
 
 	// checker's memo of what it already verified of this node's log
 	view       []vent
+	dirty      bool   // the log may differ from view: re-read it
 	viewFirst  uint64 // index of view[0]
 	baseChain  uint64 // chain hash of the entry before view[0]
 	lastCommit uint64
@@ -56,7 +57,7 @@ type sim struct {
 	tape  *core.Tape
 	nodes [maxID + 1]*node
 	peers []raft.Peer
-	soup  []pb.Message // in-flight messages, oldest first
+	soup  []*pb.Message // in-flight messages, oldest first
 	side  [maxID + 1]int
 	split bool
 
@@ -80,6 +81,7 @@ type sim struct {
 	nfault  int
 
 	verbose  bool
+	sample   bool
 	traceCap int
 	trace    []string
 
@@ -368,13 +370,14 @@ func (s *sim) persist(n *node, rd *raft.Ready) {
 }
 
 func (s *sim) send(n *node, msgs []pb.Message) {
-	for _, m := range msgs {
+	for i := range msgs {
+		m := msgs[i]
 		// a transport serialises at send time: do not alias the sender's log
 		m.Entries = append([]pb.Entry(nil), m.Entries...)
 		if m.Type == pb.MsgSnap {
 			s.fault("snapshot-sent")
 		}
-		s.soup = append(s.soup, m)
+		s.soup = append(s.soup, &m)
 	}
 }
 
@@ -503,10 +506,10 @@ func contains(xs []uint64, x uint64) bool {
 
 // ---- network -----------------------------------------------------------------
 
-func (s *sim) take(i int) pb.Message {
+func (s *sim) take(i int) *pb.Message {
 	m := s.soup[i]
 	copy(s.soup[i:], s.soup[i+1:])
-	s.soup[len(s.soup)-1] = pb.Message{}
+	s.soup[len(s.soup)-1] = nil
 	s.soup = s.soup[:len(s.soup)-1]
 	return m
 }
@@ -517,7 +520,7 @@ func (s *sim) lose(i int, why string) {
 	m := s.take(i)
 	s.hash(0xB0, uint64(m.Type), m.From, m.To)
 	if s.verbose {
-		s.logf("  lost (%s) %s", why, msgString(&m))
+		s.logf("  lost (%s) %s", why, msgString(m))
 	}
 	from := s.nodes[m.From]
 	if from.rn == nil {
@@ -534,12 +537,9 @@ func (s *sim) lose(i int, why string) {
 }
 
 func (s *sim) deliver(i int, keep bool) {
-	var m pb.Message
-	if keep {
-		m = s.soup[i]
+	m := *s.soup[i]
+	if keep { // the copy that stays in flight must not share what Step may modify
 		m.Entries = append([]pb.Entry(nil), m.Entries...)
-	} else {
-		m = s.soup[i]
 	}
 	to, from := s.nodes[m.To], s.nodes[m.From]
 	if to.rn == nil || s.side[m.From] != s.side[m.To] {
@@ -1017,7 +1017,7 @@ func (s *sim) recordState() {
 		if n.rn != nil {
 			bs := n.rn.BasicStatus()
 			term, role, commit = bs.Term, uint64(bs.RaftState)+1, bs.Commit
-			last = n.viewFirst + uint64(len(n.view))
+			last = n.viewFirst + uint64(len(n.view)) - 1
 		} else if n.started {
 			term, commit = n.hs.Term, n.hs.Commit
 			last, _ = n.ms.LastIndex()
@@ -1033,6 +1033,9 @@ func (s *sim) recordState() {
 
 func (s *sim) run() {
 	s.boot()
+	if s.sample {
+		s.verbose, s.traceCap = true, 30
+	}
 	phased := s.cfg.Strategy != "uniform"
 	if phased {
 		s.nextPhase = s.cfg.PhaseMin + s.tape.Draw(s.cfg.PhaseMax-s.cfg.PhaseMin+1)
@@ -1045,7 +1048,7 @@ func (s *sim) run() {
 			}
 		}
 		s.event()
-		if s.step&63 == 63 {
+		if s.step&255 == 255 {
 			s.recordState()
 		}
 		if s.step&255 == 255 && s.viol == nil {
